@@ -59,8 +59,10 @@ def js_decode(payload, alg):
     return {k: (val_repr(v) if isinstance(v, Obj) else v) for k, v in zip(canon, element)}
 
 
-def encode_walk(repo, subjects, root=True):
+def encode_walk(repo, subjects, root=True, numpy=None):
     it = make_interp(repo)
+    if numpy is not None:
+        it.standins["numpy"] = numpy
     enc = it.run(ENC, [subjects], {"root": root})
     if enc[0] != "return":
         return enc
@@ -165,6 +167,8 @@ def numpy_for_payload():
     def asarray(x, dtype=None, *a, **k):
         if not (isinstance(x, Obj) and x.kind == "ndarray"):
             raise NoValue("np.asarray of a non-array stand-in")
+        if "leaves" in x.attrs:                       # the N-dimensional stand-in of symenv
+            return x if dtype is None else x.methods["astype"](dtype)
         n = _dtype_name(dtype) if dtype is not None else x.attrs["dtype"].attrs["name"]
         if n is None:
             raise NoValue(f"dtype {dtype!r}")
@@ -230,7 +234,7 @@ def byte_payload(ctx):
 
 
 # --------------------------------------------------------------------------- recursion
-@rule("C20.recursion", props=["C20"], min_instances=6, mutants=[
+@rule("C20.recursion", props=["C20"], min_instances=7, mutants=[
     ("callable result not encoded", ("graph", "        yield encode(o(), tree_types)", "        yield o()")),
     ("array-valued test looks at the container only", ("graph", "    elif isinstance(o, MultiVector) and len(o.shape) > 1:", "    elif isinstance(o, MultiVector) and getattr(o._values, 'ndim', 1) > 1:")),
     ("tuple elements reversed", ("graph", "        yield o.__class__(encode(value, tree_types) for value in o)", "        yield o.__class__(encode(value, tree_types) for value in reversed(o))")),
@@ -251,7 +255,7 @@ def recursion(ctx):
         if isinstance(x, (list, tuple)):
             return [norm(v) for v in x]
         if isinstance(x, Obj):
-            return val_repr(x)
+            return str(x) if x.kind == "bytes" else val_repr(x)
         return x
 
     lam_b = Closure(ast.parse("lambda: B", mode="eval").body, {"B": b}, "graph")
@@ -270,10 +274,16 @@ def recursion(ctx):
         return o
     cloud = mv_obj(alg, (1, 2), [arr("X"), arr("Y")])
     cells.append(("array-valued (list of arrays)", [cloud], [{"mv": ["X[(0,)]", "Y[(0,)]"], "keys": (1, 2)}, {"mv": ["X[(1,)]", "Y[(1,)]"], "keys": (1, 2)}]))
+    # ... and one whose coefficients are ONE ndarray with two element axes: the elements come in C order of the element axes
+    # (itermv), each with its own coefficients - a short cut that slices another axis first transposes the picture
+    from ..symenv import symarray
+    nd = mv_obj(alg, (1, 2), symarray("X", (2, 2, 3)))
+    elem = lambda i, j: {"mv": f"bytes<float64>['X[0,{i},{j}]', 'X[1,{i},{j}]']", "keys": (1, 2)}
+    cells.append(("array-valued (one ndarray, two element axes)", [nd], [elem(i, j) for i in range(2) for j in range(3)]))
     for label, subjects, want in cells:
         c = f"{ENC}#tree:{label}"
         try:
-            out = encode_walk(repo, subjects)
+            out = encode_walk(repo, subjects, numpy=numpy_for_payload() if "one ndarray" in label else None)
         except NoValue as exc:
             raise Unknown(c, str(exc), fn)
         if out[0] != "return":
